@@ -34,6 +34,7 @@ fn main() {
         Some("replay") => run_replay(&args[2]),
         Some("selftest") => props::selftest(),
         Some("c18ref") => c18ref(),
+        Some("lpcprobe") => lpcprobe(),
         _ => {
             eprintln!("usage: vpx run <ID> <quick|thorough> | replay <file> | selftest");
             2
@@ -61,6 +62,31 @@ fn c18ref() -> i32 {
         }
     }
     std::fs::write(Path::new(VERIF).join("target").join("c18ref.json"), serde_json::to_vec(&Value::Object(m)).unwrap()).unwrap();
+    0
+}
+
+/// diagnostic: which LPC orders does the encoder actually pick on the signal families?
+fn lpcprobe() -> i32 {
+    use crate::codec::{encode, Opt, Sig, WriterKind};
+    use crate::encspace::{family, KINDS};
+    for bs in [192u16, 576, 1152, 4096] {
+        for bps in [8u32, 16, 24] {
+            for &kind in KINDS {
+                for amp in 0..3 {
+                    let pcm = family(kind, amp, bps, bs as usize * 2 + 1);
+                    let opt = Opt { block: bs, lpc: Some(32), part: 15, ..Opt::base16() };
+                    if let Ok(b) = encode(WriterKind::Sample, &opt, &Sig { rate: 44100, bps, ch: 1 }, &pcm) {
+                        if let Ok(st) = vph::refdec::decode(&b) {
+                            let mx = st.frames.iter().flat_map(|f| f.subframes.iter()).filter_map(|s| if let vph::refdec::SubKind::Lpc(o) = s.kind { Some(o) } else { None }).max();
+                            if mx.unwrap_or(0) >= 20 {
+                                println!("bs {bs} bps {bps} {kind:?} amp {amp}: max LPC order {mx:?}");
+                            }
+                        }
+                    }
+                }
+            }
+        }
+    }
     0
 }
 
